@@ -6,6 +6,10 @@ from hgen import P
 def cpp(ns):
     s = hgen.W_PRELUDE + "#include <sbepp/sbepp.hpp>\n#include <initializer_list>\n"
     s += "struct vspan { const char* b; const char* e; const char* begin() const { return b; } const char* end() const { return e; } };\n"
+    s += ("struct sp_it { using iterator_category = std::input_iterator_tag; using value_type = char; using difference_type = std::ptrdiff_t; using pointer = const char*; using reference = char;\n"
+          "  const char** cur; const char* endp; struct proxy { char v; char operator*() const { return v; } };\n"
+          "  char operator*() const { return **cur; } sp_it& operator++(){ ++*cur; return *this; } proxy operator++(int){ proxy t{**cur}; ++*cur; return t; }\n"
+          "  bool at_end() const { return !cur || *cur == endp; } bool operator==(const sp_it& o) const { return at_end() == o.at_end(); } bool operator!=(const sp_it& o) const { return at_end() != o.at_end(); } };\n")
     s += "static inline sbepp::eos_null em(uint32_t m){ return m == 0 ? sbepp::eos_null::none : (m == 1 ? sbepp::eos_null::single : sbepp::eos_null::all); }\n"
     for n in ns:
         A = "A%d" % n
@@ -17,6 +21,7 @@ def cpp(ns):
         s += "W void fill_%d(char* p, size_t cap, char v){ %s a{p, cap}; a.fill(v); }\n" % (n, A)
         s += "W int64_t assign_cv_%d(char* p, size_t cap, size_t count, char v){ %s a{p, cap}; auto it = a.assign(count, v); return it - a.begin(); }\n" % (n, A)
         s += "W int64_t assign_it_%d(char* p, size_t cap, const char* s, size_t len){ %s a{p, cap}; auto it = a.assign(s, s + len); return it - a.begin(); }\n" % (n, A)
+        s += "W int64_t assign_sp_%d(char* p, size_t cap, const char* s, size_t len){ %s a{p, cap}; const char* cur = s; auto it = a.assign(sp_it{&cur, s + len}, sp_it{nullptr, nullptr}); return it - a.begin(); }\n" % (n, A)
         for k in range(n + 1):
             il = ", ".join("s[%d]" % i for i in range(k))
             s += "W int64_t assign_il_%d_%d(char* p, size_t cap, const char* s){ %s a{p, cap}; auto it = a.assign(std::initializer_list<char>{%s}); return it - a.begin(); }\n" % (n, k, A, il)
@@ -46,6 +51,7 @@ def harness(u, n, checked):
   } else if (which == 2) { CALL(r = as_range_%(n)d(a, N, s, L, mode)); }
   else if (which == 3) { mode = 0; CALL(r = ar_range_%(n)d(a, N, s, L)); }
   else if (which == 4) { mode = 0; CALL(r = assign_it_%(n)d(a, N, s, L)); }
+  else if (which == 11) { mode = 0; CALL(r = assign_sp_%(n)d(a, N, s, L)); }   /* genuinely single-pass input iterators (istream_iterator-like) */
   else if (which == 5) { mode = 0;
 %(ilcalls)s
   }
@@ -56,7 +62,7 @@ def harness(u, n, checked):
   else { VASSUME(which == 10); CALL(ur = size_%(n)d(a, N)); }
   VASSERT(!verif_aborted, "documented preconditions hold, so the assertion handler must not fire");
   VASSERT(g[0] == old[0] && g[N + 1] == old[N + 1], "no byte before element 0 or beyond element N-1 is written");
-  if (which <= 5) {
+  if (which <= 5 || which == 11) {
     VASSERT(r == (i64)L, "returned iterator designates the position past the last written character");
     for (unsigned i = 0; i < N; i++) {
       if (i < L) VASSERT(a[i] == s[i], "content bytes are copied exactly");
